@@ -11,6 +11,7 @@ package nitro
 import "os"
 import "bufio"
 import "errors"
+import "io"
 
 var (
 	// DiskBlockSize - backup file reader and writer
@@ -127,6 +128,14 @@ func (f *rawFileReader) ReadItem() (*Item, error) {
 	itm, checksum, err := f.db.DecodeItem(f.version, f.buf, f.r)
 	if itm != nil { // Checksum excludes terminal nil item
 		f.checksum = f.checksum ^ checksum
+	} else if err == nil {
+		// The end marker is the last thing a writer puts into the file. Data
+		// behind it means the marker is the product of damage (a length
+		// prefix turned into zero): the rest of the file would be dropped
+		// silently.
+		if _, perr := f.r.Peek(1); perr != io.EOF {
+			return nil, ErrCorruptSnapshot
+		}
 	}
 	return itm, err
 }
